@@ -108,7 +108,7 @@ func cssString(r *rand.Rand) string {
 	if q == "'" {
 		other = "\""
 	}
-	alpha := []string{"a", "b", " ", "é", "日本", other, "\\" + q, "\\\\", "\\41 ", "\\\n", "\\\r\n", "\\\f", "/*", "*/", "(", ")", "{", ";", "url(", "\t", "\\g", "<!--"}
+	alpha := []string{"a", "b", " ", "é", "日本", other, "\\" + q, "\\\\", "\\41 ", "\\\n", "\\\r\n", "\\\f", "/*", "*/", "(", ")", "{", ";", "url(", "\t", "\\g", "<!--", "\x00"}
 	var sb strings.Builder
 	sb.WriteString(q)
 	for i := SmallLen(r, 8); i > 0; i-- {
@@ -166,7 +166,7 @@ func CSSToken(r *rand.Rand) CSSTok {
 		return CSSTok{"URL", cssURLName(r) + "(" + ws() + cssString(r) + ws() + ")"}
 	case 12:
 		// malformed url(: one BadURL token up to the first unescaped ')'
-		bad := Pick(r, []string{"a b", "a\"b", "a'b", "a(b", "a\tb c", "\"x\" y", "'x'y", "a\\\nb", "\"x\ny", "a \\) b", "a\x7fb", "a\x01"})
+		bad := Pick(r, []string{"a b", "a\"b", "a'b", "a(b", "a\tb c", "\"x\" y", "'x'y", "a\\\nb", "\"x\ny", "a \\) b", "a\x7fb", "a\x01", "a\x00b", "a b\x00 c"})
 		return CSSTok{"BadURL", cssURLName(r) + "(" + bad + ")"}
 	case 13, 14:
 		return CSSTok{"Number", cssNumber(r)}
@@ -214,7 +214,7 @@ func CSSToken(r *rand.Rand) CSSTok {
 		}
 		return CSSTok{"Whitespace", sb.String()}
 	default:
-		body := HTMLSafe(r, []string{"a", " ", "*", "/", "\n", "é", "/*", "* /", "\"", "'", "{", "}"}, r.Intn(6))
+		body := HTMLSafe(r, []string{"a", " ", "*", "/", "\n", "é", "/*", "* /", "\"", "'", "{", "}", "\x00"}, r.Intn(6))
 		body = strings.ReplaceAll(body, "*/", "* /")
 		return CSSTok{"Comment", "/*" + body + "*/"}
 	}
